@@ -10,6 +10,7 @@
 //!   V <prop> ...   the direct oracle saw the *property* fail on the real code
 //!   # ...          statistics
 mod fam_readn;
+mod fam_vtime;
 mod util;
 
 use std::io::Write;
@@ -17,7 +18,10 @@ use std::panic::{catch_unwind, AssertUnwindSafe};
 use util::{Exec, Family, Rng, StepOut};
 
 fn families() -> Vec<Box<dyn Family>> {
-    vec![Box::new(fam_readn::ReadNFamily)]
+    vec![
+        Box::new(fam_vtime::VTimeFamily),
+        Box::new(fam_readn::ReadNFamily),
+    ]
 }
 
 struct Stats {
